@@ -88,10 +88,17 @@ func ensureFileExists(path string, mode os.FileMode) error {
 		return err
 	}
 	verifPoint("ensure.create", path)
-	if err := os.WriteFile(path, []byte{}, mode); err != nil {
+	// Create exclusively: between the stat above and this point another process
+	// may have created the file and written to it (init takes no lock), and
+	// truncating it would destroy an acknowledged write.
+	file, err := os.OpenFile(path, os.O_CREATE|os.O_EXCL|os.O_WRONLY, mode)
+	if err != nil {
+		if errors.Is(err, os.ErrExist) {
+			return nil
+		}
 		return fmt.Errorf("cannot create %s: %w", path, err)
 	}
-	return nil
+	return file.Close()
 }
 
 func newEvent(eventType string, ts time.Time, payload interface{}) (Event, error) {
